@@ -92,18 +92,39 @@ func corruptCmd(args []string) error {
 var errInjected = errors.New("injected I/O fault")
 
 // faultReader returns the bytes before offset `at`, then the injected error.
+//
+// mode "alone": the error comes in a call of its own (0, err) and is repeated.
+// mode "withdata-eof": the call that delivers the last bytes before `at` returns them
+// together with the error (n > 0, err), as io.Reader allows; afterwards the source
+// reports io.EOF (a connection that died).  mode "withdata-resume": as before, but
+// the fault is transient and the source then delivers the remaining bytes.
 type faultReader struct {
 	data      []byte
 	off, at   int
 	delivered bool
 	calls     int
 	chunk     int
+	mode      string
+	fired     bool
 }
 
 func (r *faultReader) Read(p []byte) (int, error) {
 	r.calls++
-	if r.off >= r.at {
-		r.delivered = true
+	if r.mode == "" || r.mode == "alone" {
+		if r.off >= r.at {
+			r.delivered = true
+			return 0, errInjected
+		}
+	} else if r.fired {
+		if r.mode == "withdata-eof" || r.off >= len(r.data) {
+			return 0, io.EOF
+		}
+		n := min(len(p), len(r.data)-r.off)
+		copy(p, r.data[r.off:r.off+n])
+		r.off += n
+		return n, nil
+	} else if r.off >= r.at {
+		r.delivered, r.fired = true, true
 		return 0, errInjected
 	}
 	n := len(p)
@@ -115,6 +136,10 @@ func (r *faultReader) Read(p []byte) (int, error) {
 	}
 	copy(p, r.data[r.off:r.off+n])
 	r.off += n
+	if r.mode != "" && r.mode != "alone" && r.off >= r.at {
+		r.delivered, r.fired = true, true
+		return n, errInjected
+	}
 	return n, nil
 }
 
@@ -210,10 +235,12 @@ func faultsCmd(args []string) error {
 		for at := 0; at <= len(in.Data); at += step {
 			at := at
 			jobs <- func() {
-				fr := &faultReader{data: in.Data, at: at, chunk: 0}
-				res := corpus.Run(in.Entry, fr)
-				emitEv(map[string]any{"kind": "readfault", "entry": in.Entry, "input": in.Name, "at": at, "delivered": fr.delivered,
-					"calls": fr.calls, "outcome": outcome(res), "equal": res == base, "complete": false, "detail": res.Err + res.Panic})
+				for _, mode := range []string{"alone", "withdata-eof", "withdata-resume"} {
+					fr := &faultReader{data: in.Data, at: at, chunk: 0, mode: mode}
+					res := corpus.Run(in.Entry, fr)
+					emitEv(map[string]any{"kind": "readfault", "mode": mode, "entry": in.Entry, "input": in.Name, "at": at, "delivered": fr.delivered,
+						"calls": fr.calls, "outcome": outcome(res), "equal": res == base, "complete": false, "detail": res.Err + res.Panic})
+				}
 				tr := corpus.Run(in.Entry, bytes.NewReader(in.Data[:at]))
 				emitEv(map[string]any{"kind": "truncate", "entry": in.Entry, "input": in.Name, "at": at, "delivered": true,
 					"calls": 0, "outcome": outcome(tr), "equal": tr == base, "complete": at == len(in.Data), "detail": tr.Err + tr.Panic})
